@@ -8,11 +8,13 @@ vars == <<ax, g1, g2, g3, v, phase>>
 Axes == {<<R(1), R(0), R(0)>>, <<R(0), R(1), R(0)>>, <<R(0), R(0), R(1)>>, <<<<1, 3>>, <<2, 3>>, <<-2, 3>>>>, <<<<2, 7>>, <<3, 7>>, <<6, 7>>>>,
          <<<<-4, 9>>, <<1, 9>>, <<8, 9>>>>} \cup (IF QUICK THEN {} ELSE {<<<<3, 5>>, R(0), <<-4, 5>>>>, <<<<-6, 11>>, <<-2, 11>>, <<9, 11>>>>})
 Angles == {<<an, 1, k, 0>> : an \in (IF QUICK THEN {-2, 0, 1} ELSE -2..2), k \in (IF QUICK THEN {-2, 0, 1} ELSE {-2, -1, 0, 1, 2})}
+\* the third angle ranges over the small table in both tiers (the thorough run is 8 * 25 * 25 * 9 * 2 = 90 000 states of symbolic trigonometry)
+Angles3 == {<<an, 1, k, 0>> : an \in {-2, 0, 1}, k \in {-2, 0, 1}}
 Even(g) == g[1] % 2 = 0 /\ g[3] % 2 = 0
 VList == {<<R(1), R(-2), R(3)>>, <<<<1, 2>>, R(0), R(-1)>>}
 Init == ax = <<>> /\ g1 = AZero /\ g2 = AZero /\ g3 = AZero /\ v = <<>> /\ phase = "a"
 Next == \/ phase = "a" /\ \E a \in Axes, g \in Angles : ax' = a /\ g1' = g /\ phase' = "b" /\ UNCHANGED <<g2, g3, v>>
-        \/ phase = "b" /\ \E g \in Angles, h \in Angles, x \in VList : g2' = g /\ g3' = h /\ v' = x /\ phase' = "done" /\ UNCHANGED <<ax, g1>>
+        \/ phase = "b" /\ \E g \in Angles, h \in Angles3, x \in VList : g2' = g /\ g3' = h /\ v' = x /\ phase' = "done" /\ UNCHANGED <<ax, g1>>
 Spec == Init /\ [][Next]_vars
 Done == phase = "done"
 \* the code's closed forms are the Rodrigues rotation: fixes the axis, proper, counter-clockwise; angles add about a common axis
